@@ -15,10 +15,12 @@ package main
 // measured here: goroutine accounting around every call of parser.Parse.
 
 import (
-	"bytes"
+	"bufio"
 	"fmt"
+	"os"
+	"os/exec"
 	"runtime"
-	"runtime/pprof"
+	"strconv"
 	"strings"
 	"time"
 
@@ -102,66 +104,135 @@ func c07Kind(err error) string {
 }
 
 // goroutine accounting --------------------------------------------------------
+//
+// The property: nothing of the parser OUTLIVES THE CALL. So the observation is made at
+// return time: directly after parser.Parse returns the goroutine dump is searched for
+// goroutines with a frame of package parser. The only one tolerated is the lexer goroutine
+// between its close(l.tokens) and its return (single parser frame (*lexer).run, nothing
+// deeper) - it is given time to finish; every other one (a lexer still lexing or blocked in
+// a send, a drain helper, ...) is a leak at once, reported with its frame names.
+// (After run has returned only the wrapper of the go statement, parser.Lex.gowrap1, may still be visible.)
 
-var c07LexerGoroutines int // lexer goroutines known to be stuck in this process
-var c07Profiles int
+const c07Pkg = "github.com/krotik/ecal/parser."
 
-func c07CountLexers() int {
-	var buf bytes.Buffer
-	pprof.Lookup("goroutine").WriteTo(&buf, 2)
-	n := 0
-	for _, g := range strings.Split(buf.String(), "\n\n") {
-		if strings.Contains(g, "parser.(*lexer).run") {
-			n++
-		}
-	}
-	return n
+var c07Known = map[string]bool{} // goroutines already reported as leaked in this process
+
+type c07Gor struct {
+	id     string
+	frames []string // functions of package parser on its stack, innermost first
 }
 
-// c07Settled waits until the goroutine count is back at the level before the call.
-func c07Settled(before int) bool {
-	for i := 0; i < 200; i++ {
-		if runtime.NumGoroutine() <= before {
-			return true
+func c07ParserGoroutines() []c07Gor {
+	buf := make([]byte, 1<<20)
+	for {
+		n := runtime.Stack(buf, true)
+		if n < len(buf) {
+			buf = buf[:n]
+			break
 		}
-		runtime.Gosched()
+		buf = make([]byte, 2*len(buf))
 	}
-	limit := 2 * time.Second
-	if c07LexerGoroutines > 3 {
-		limit = 3 * time.Millisecond // the process is known to leak: do not wait long for every case
+	var res []c07Gor
+	for _, blk := range strings.Split(string(buf), "\n\n") {
+		lines := strings.Split(blk, "\n")
+		if len(lines) == 0 || !strings.HasPrefix(lines[0], "goroutine ") {
+			continue
+		}
+		id := strings.SplitN(lines[0][len("goroutine "):], " ", 2)[0]
+		if c07Known[id] {
+			continue
+		}
+		var fr []string
+		for _, l := range lines[1:] {
+			if strings.HasPrefix(l, c07Pkg) {
+				fn := l[len(c07Pkg):]
+				if k := strings.LastIndex(fn, "("); k > 0 {
+					fn = fn[:k]
+				}
+				fr = append(fr, "parser."+fn)
+			}
+		}
+		if len(fr) > 0 {
+			res = append(res, c07Gor{id, fr})
+		}
+	}
+	return res
+}
+
+// c07LeakAtReturn is called directly after parser.Parse returned.
+func c07LeakAtReturn(before int) (int, string) {
+	for i := 0; i < 20 && runtime.NumGoroutine() > before; i++ {
+		runtime.Gosched() // what a goroutine past its close() needs to get off the books
+	}
+	if runtime.NumGoroutine() <= before {
+		return 0, ""
+	}
+	if len(c07Known) > 40 {
+		// this process leaks on every error: do not dump thousands of goroutines per case
+		time.Sleep(2 * time.Millisecond)
+		if runtime.NumGoroutine() > before {
+			return 1, "goroutine-count"
+		}
+		return 0, ""
 	}
 	t0 := time.Now()
-	for time.Since(t0) < limit {
-		if runtime.NumGoroutine() <= before {
-			return true
+	for {
+		gs := c07ParserGoroutines()
+		var bad []string
+		for _, g := range gs {
+			ending := true // only (*lexer).run and/or the wrapper of its go statement: past close(), about to end
+			for _, fr := range g.frames {
+				if fr != "parser.(*lexer).run" && fr != "parser.Lex.gowrap1" {
+					ending = false
+				}
+			}
+			if !ending {
+				bad = append(bad, strings.Join(g.frames, "<"))
+			}
 		}
-		time.Sleep(50 * time.Microsecond)
+		if len(gs) == 0 {
+			return 0, ""
+		}
+		if len(bad) == 0 && time.Since(t0) > 2*time.Second {
+			bad = append(bad, "parser.(*lexer).run-does-not-end")
+		}
+		if len(bad) > 0 {
+			for _, g := range gs {
+				c07Known[g.id] = true
+			}
+			return 1, strings.ReplaceAll(strings.Join(bad, "+"), " ", "")
+		}
+		runtime.Gosched()
+		if time.Since(t0) > 20*time.Millisecond {
+			time.Sleep(100 * time.Microsecond)
+		}
 	}
-	return runtime.NumGoroutine() <= before
 }
 
 func c07Run(payload string) string {
 	f := strings.Split(payload, " ")
 	src := unhx(f[0])
-	before := runtime.NumGoroutine()
-	ast, err := parser.Parse("t", src)
-	leak := 0
-	if !c07Settled(before) {
-		// something outlived the call; is it a lexer?
-		if c07Profiles < 8 {
-			c07Profiles++
-			if n := c07CountLexers(); n > c07LexerGoroutines {
-				c07LexerGoroutines = n
-				leak = 1
-			}
-		} else {
-			c07LexerGoroutines++
-			leak = 1
+	if len(f) > 1 && f[1] == "UNVERIFIED" {
+		return "SKIPPED"
+	}
+	if len(f) > 1 && f[1] == "LEXCRASH" {
+		// the real lexer died or hung on this source in the generator's child process: reproduce it here
+		done := make(chan bool, 1)
+		go func() { parser.Parse("t", src); done <- true }()
+		select {
+		case <-done:
+			return "LEXER-OK-HERE-BUT-FAILED-IN-GENERATOR"
+		case <-time.After(5 * time.Second):
+			panic("HANG: parser.Parse does not return (lexer does not terminate) on this input")
 		}
 	}
+	before := runtime.NumGoroutine()
+	ast, err := parser.Parse("t", src)
+	leak, frames := c07LeakAtReturn(before)
 	tail := fmt.Sprintf(" leak=%d", leak)
 	if leak == 1 {
 		CountRun("leaks")
+		tail += " frames=" + frames
 	}
 	var sb strings.Builder
 	switch {
@@ -244,20 +315,179 @@ var c07Programs = []string{
 	"a := true ; b := false ; c := null ; d := a == b != c >= 1 <= 2 > 3",
 }
 
+// Payload building runs the REAL lexer inside the generator. A broken lexer must not take the
+// generator down (then there would be no concrete failing case): sources of the families with
+// unusual bytes are lexed first in a child process (c07Prepass); a source on which the child
+// dies or hangs gets the payload "<src> LEXCRASH" without being lexed here - its Run then
+// reproduces the crash / hang INSIDE the case. The in-process call is guarded as well
+// (recover + watchdog; a panic in the lexer's own goroutine cannot be recovered, hence the
+// child). Payloads are only built for the cases this process executes.
+
+var c07Idx, c07Si, c07Sn, c07Start = 0, 0, 1, 0
+var c07List bool
+var c07Bad = map[string]bool{}
+var c07Unverified = map[string]bool{}
+var c07Risky = map[string]bool{"corpus": true, "bytes": true, "junk": true}
+
+func c07Flags() {
+	c07Idx, c07Si, c07Sn, c07Start, c07List = 0, 0, 1, 0, false
+	a := os.Args
+	val := func(i int, name string) (string, bool) {
+		if a[i] == name && i+1 < len(a) {
+			return a[i+1], true
+		}
+		if strings.HasPrefix(a[i], name+"=") {
+			return a[i][len(name)+1:], true
+		}
+		return "", false
+	}
+	for i := range a {
+		for _, d := range []string{"-", "--"} {
+			if v, ok := val(i, d+"shard"); ok {
+				fmt.Sscanf(v, "%d/%d", &c07Si, &c07Sn)
+			}
+			if v, ok := val(i, d+"start"); ok {
+				c07Start, _ = strconv.Atoi(v)
+			}
+			if a[i] == d+"list" || a[i] == d+"list=true" {
+				c07List = true
+			}
+		}
+	}
+	if c07Sn <= 0 {
+		c07Sn = 1
+	}
+}
+
+func c07SafeTokens(src string) (string, bool) {
+	ch := make(chan string, 1)
+	go func() {
+		defer func() {
+			if recover() != nil {
+				ch <- ""
+			}
+		}()
+		ch <- c07Tokens(src)
+	}()
+	select {
+	case t := <-ch:
+		return t, t != ""
+	case <-time.After(10 * time.Second):
+		return "", false
+	}
+}
+
+// c07Prepass lexes the given sources in child processes and returns those on which a child died or hung.
+// After 5 such sources the lexer counts as broken: the remaining risky sources are not lexed at all
+// (c07Unverified; their cases are skipped on both sides) - five concrete failing inputs are enough.
+func c07Prepass(srcs []string) map[string]bool {
+	bad := map[string]bool{}
+	c07Unverified = map[string]bool{}
+	exe, err := os.Executable()
+	if err != nil {
+		return bad
+	}
+	from := 0
+	for from < len(srcs) {
+		if len(bad) >= 5 {
+			for _, u := range srcs[from:] {
+				c07Unverified[u] = true
+			}
+			break
+		}
+		cmd := exec.Command(exe, "C07", "-tool", "lexprobe")
+		in, _ := cmd.StdinPipe()
+		out, _ := cmd.StdoutPipe()
+		if cmd.Start() != nil {
+			return bad
+		}
+		go func(part []string) {
+			w := bufio.NewWriter(in)
+			for _, s := range part {
+				w.WriteString(hx(s) + "\n")
+			}
+			w.Flush()
+			in.Close()
+		}(srcs[from:])
+		begun, done := -1, -1
+		sc := bufio.NewScanner(out)
+		for sc.Scan() {
+			l := sc.Text()
+			if len(l) > 2 {
+				n, _ := strconv.Atoi(l[2:])
+				if l[0] == 'B' {
+					begun = n
+				} else if l[0] == 'E' {
+					done = n
+				}
+			}
+		}
+		cmd.Wait()
+		if begun > done { // died or hung while lexing source number `begun` of this part
+			bad[srcs[from+begun]] = true
+			from += begun + 1
+		} else {
+			break
+		}
+	}
+	return bad
+}
+
 func c07Emit(g *Gen, kind, src string) {
 	g.Count(kind)
-	g.Emit(c07Payload(src))
+	idx := c07Idx
+	c07Idx++
+	if !c07List && (idx%c07Sn != c07Si || idx < c07Start) {
+		g.Emit("-") // not executed by this process: no need to lex
+		return
+	}
+	if c07Unverified[src] && !c07Bad[src] {
+		g.Emit(hx(src) + " UNVERIFIED")
+		return
+	}
+	if !c07Bad[src] {
+		if toks, ok := c07SafeTokens(src); ok {
+			g.Emit(hx(src) + " " + toks)
+			return
+		}
+	}
+	g.Emit(hx(src) + " LEXCRASH")
 }
 
 func c07Gen(g *Gen) {
+	c07Flags()
+	// first pass: collect the sources of the risky families and try them in a child process
+	var risky []string
+	g.R = NewRand(g.Seed)
+	c07Enum(g, func(kind, src string) {
+		if c07Risky[kind] {
+			risky = append(risky, src)
+		}
+	}, true)
+	c07Bad = c07Prepass(risky)
+	// second pass: emit
+	g.R = NewRand(g.Seed)
+	c07Enum(g, func(kind, src string) { c07Emit(g, kind, src) }, false)
+}
+
+func c07Enum(g *Gen, emit func(kind, src string), riskyOnly bool) {
 	for _, s := range c07Corpus {
-		c07Emit(g, "corpus", s)
+		emit("corpus", s)
 	}
+	// long tails after an early error: the synchronous drain has to lex the whole rest before
+	// ParseWithRuntime returns; anything that lets the call return earlier is still busy at return time
+	tailN := 100000
+	if g.Thorough() {
+		tailN = 300000
+	}
+	emit("longtail", ") "+strings.Repeat("a ", tailN))
+	emit("longtail", "a b "+strings.Repeat("c ; ", tailN/2))
+	emit("longtail", "if { "+strings.Repeat("x := [ 1 , 2 ] \n", tailN/8))
 	// exhaustive byte strings of length <= 3 over 20 symbols
 	var rec func(prefix string, n int)
 	rec = func(prefix string, n int) {
 		if n == 0 {
-			c07Emit(g, "bytes", prefix)
+			emit("bytes", prefix)
 			return
 		}
 		for _, b := range c07Bytes {
@@ -275,14 +505,14 @@ func c07Gen(g *Gen) {
 	var recT func(parts []string, n int)
 	recT = func(parts []string, n int) {
 		if n == 0 {
-			c07Emit(g, fmt.Sprintf("tokens%d", len(parts)), strings.Join(parts, " "))
+			emit(fmt.Sprintf("tokens%d", len(parts)), strings.Join(parts, " "))
 			return
 		}
 		for _, t := range c07Toks {
 			recT(append(parts, t), n-1)
 		}
 	}
-	for n := 1; n <= maxTok; n++ {
+	for n := 1; n <= maxTok && !riskyOnly; n++ {
 		recT(nil, n)
 	}
 	// mutations of valid programs
@@ -294,7 +524,7 @@ func c07Gen(g *Gen) {
 	all := append(append([]string{}, c07Toks...), c07Extra...)
 	stray := []string{";", "}", ")", "{", "(", "]", "[", "\"", ",", "\n"}
 	for _, p := range c07Programs {
-		c07Emit(g, "valid", p)
+		emit("valid", p)
 	}
 	for i := 0; i < nMut; i++ {
 		ts := strings.Split(c07Programs[g.R.Intn(len(c07Programs))], " ")
@@ -327,7 +557,7 @@ func c07Gen(g *Gen) {
 		if g.R.Intn(8) == 0 {
 			sep = "\n"
 		}
-		c07Emit(g, "mutant", strings.Join(ts, sep))
+		emit("mutant", strings.Join(ts, sep))
 	}
 	// guards containing bracketed / parenthesised brace expressions
 	open := []string{"(", "[", "f (", "a + (", "not (", "x [", "- ("}
@@ -339,14 +569,14 @@ func c07Gen(g *Gen) {
 		for _, o := range open {
 			for _, in := range inner {
 				for _, tl := range tails {
-					c07Emit(g, "guardbrace", hd+" "+o+" "+in+" "+closeOf[o]+" "+tl)
+					emit("guardbrace", hd+" "+o+" "+in+" "+closeOf[o]+" "+tl)
 				}
 			}
 		}
 		for _, in := range inner {
-			c07Emit(g, "guardbrace", hd+" a + "+in+" { }")
-			c07Emit(g, "guardbrace", hd+" "+in+" { }")
-			c07Emit(g, "guardbrace", hd+" a == "+in+" and b { c }")
+			emit("guardbrace", hd+" a + "+in+" { }")
+			emit("guardbrace", hd+" "+in+" { }")
+			emit("guardbrace", hd+" a == "+in+" and b { c }")
 		}
 	}
 	// errors inside except / otherwise / finally clauses
@@ -356,8 +586,8 @@ func c07Gen(g *Gen) {
 	for _, t := range trys {
 		for _, c := range clauses {
 			for _, b := range bodies {
-				c07Emit(g, "tryclause", t+" "+c+" "+b)
-				c07Emit(g, "tryclause", t+" "+c+" "+b+" \n d := 1")
+				emit("tryclause", t+" "+c+" "+b)
+				emit("tryclause", t+" "+c+" "+b+" \n d := 1")
 			}
 		}
 	}
@@ -375,12 +605,33 @@ func c07Gen(g *Gen) {
 				sb.WriteString(" ")
 			}
 		}
-		c07Emit(g, "junk", sb.String())
+		emit("junk", sb.String())
 	}
 }
 
 // c07Tool: `harness C07 -tool <src-hex>…` prints the case line (idx 0) of a source text.
 func c07Tool(args []string) int {
+	if len(args) > 0 && args[0] == "lexprobe" {
+		// lex every hex source line of stdin; "B i" before, "E i" after (flushed): the parent learns on which one we died
+		sc := bufio.NewScanner(os.Stdin)
+		sc.Buffer(make([]byte, 1<<20), 1<<28)
+		w := bufio.NewWriter(os.Stdout)
+		for i := 0; sc.Scan(); i++ {
+			fmt.Fprintf(w, "B %d\n", i)
+			w.Flush()
+			src := unhx(sc.Text())
+			done := make(chan bool, 1)
+			go func() { parser.LexToList("t", src); done <- true }()
+			select {
+			case <-done:
+			case <-time.After(3 * time.Second):
+				os.Exit(3)
+			}
+			fmt.Fprintf(w, "E %d\n", i)
+			w.Flush()
+		}
+		return 0
+	}
 	for _, a := range args {
 		fmt.Printf("0\t%s\n", c07Payload(unhx(a)))
 	}
